@@ -161,6 +161,11 @@ def seq_strategy():
                         b2 = src
                     j0 = draw(st.integers(0, H - rows))
                     s["ifm2"] = fm_of(b2, j0, j0 + rows, min(dd, b2["d"]))
+                    if rows >= 2 and draw(st.integers(0, 3)) == 0:
+                        # one row of the first operand's own buffer broadcast over it (x - x[k]): the second operand's byte range is nested inside the first one's,
+                        # and a transfer may touch the enclosing range above or below it
+                        j0 = draw(st.integers(i0, i0 + rows - 1))
+                        s["ifm2"] = fm_of(src, j0, j0 + 1, dd)
                     if s["ifm2"]["shape"][2] != dd:
                         s["ifm2"]["shape"][2] = 1 if s["ifm2"]["shape"][2] < dd else dd
                         if s["ifm2"]["shape"][2] == 1 and b2["layout"] == "NHWC":
